@@ -91,16 +91,29 @@ def run_stage(ctx, case, env, inp, faults=False):
     c2r = {c: i for i, c in enumerate(cl)}
     name2cl = {n: c for n, c in inp['label'].items() if c is not None}
     raised = None
+    tree = None
     try:
-        PFA.precompute_summary_stats_from_h5ad_and_lookup(
-            data_path_list=list(inp['paths']),
-            cell_name_to_cluster_name=name2cl, cluster_to_output_row=c2r,
-            output_path=out, rows_at_a_time=rat,
-            normalization='raw' if inp['raw'] else 'log2CPM',
-            tmp_dir=env.dir, n_processors=nproc)
-    except RuntimeError as e:
+        if case.get('via_tree'):
+            data = {'hierarchy': ['cluster'],
+                    'cluster': {c: [n for n, l_ in inp['label'].items()
+                                    if l_ == c] for c in inp['clusters']}}
+            tree = TaxonomyTree(data=data)
+            PFA.precompute_summary_stats_from_h5ad_list_and_tree(
+                data_path_list=list(inp['paths']), taxonomy_tree=tree,
+                output_path=out, rows_at_a_time=rat,
+                normalization='raw' if inp['raw'] else 'log2CPM',
+                tmp_dir=env.dir, n_processors=nproc)
+        else:
+            PFA.precompute_summary_stats_from_h5ad_and_lookup(
+                data_path_list=list(inp['paths']),
+                cell_name_to_cluster_name=name2cl,
+                cluster_to_output_row=c2r,
+                output_path=out, rows_at_a_time=rat,
+                normalization='raw' if inp['raw'] else 'log2CPM',
+                tmp_dir=env.dir, n_processors=nproc)
+    except Exception as e:
         raised = e
-    return {'out': out, 'raised': raised, 'c2r': c2r, 'nproc': nproc,
+    return {'out': out, 'tree': tree, 'raised': raised, 'c2r': c2r, 'nproc': nproc,
             'rat': rat, 'outcome': dict(mpmodel.SCHED.outcome)}
 
 
@@ -126,6 +139,15 @@ def check_stats(ctx, inp, res, env):
                                      'gt1', 'ge1')}
         col = json.loads(f['col_names'][()].decode('utf-8'))
         c2r = json.loads(f['cluster_to_row'][()].decode('utf-8'))
+    if res.get('tree') is not None:
+        with env.File(res['out'], 'r') as f:
+            ok = 'taxonomy_tree' in f
+            ctx.check(ok, 'the input taxonomy accompanies the statistics')
+            if ok:
+                t2 = TaxonomyTree.from_str(
+                    f['taxonomy_tree'][()].decode('utf-8'))
+                ctx.check(t2 == res['tree'], 'stored taxonomy == input '
+                          'taxonomy')
     ctx.check(col == inp['genes'], 'gene-name table == input genes')
     ctx.check(sorted(c2r) == sorted(inp['clusters']) and
               sorted(c2r.values()) == list(range(len(c2r))),
@@ -156,3 +178,20 @@ def _ind(ctx, b):
         import z3
         return core.SInt(z3.If(core.bexpr(b), z3.IntVal(1), z3.IntVal(0)))
     return 1 if b else 0
+
+
+def accepted_as_complete(env, path):
+    """would a later stage take the file at `path` for a finished
+    statistics file?  (taxonomy readable, or numeric tables readable)"""
+    import os
+    import cell_type_mapper.diff_exp.score_utils as SCU
+    if not os.path.exists(path):
+        return False
+    try:
+        with env.File(path, 'r') as f:
+            if 'taxonomy_tree' in f:
+                return True
+            return all(k in f for k in ('n_cells', 'sum', 'cluster_to_row',
+                                        'col_names'))
+    except Exception:
+        return False
